@@ -968,7 +968,8 @@ def _readUrl(  # noqa: C901
                     # at least in GAE
                     decodedCssText = content.decode(encoding if encoding else 'utf-8')
 
-            except UnicodeDecodeError as e:
+            except (UnicodeDecodeError, LookupError) as e:
+                # (LookupError: the encoding that applies is not known)
                 log.warn(e, neverraise=True)
                 decodedCssText = None
 
